@@ -155,14 +155,22 @@ func VerifC09Replies() {
 	}
 	author := ""
 	authorOK := true
-	switch verifrt.Choice("author", 3) {
+	postID := `"id":"` + c09A + `/post?n=1",`
+	switch verifrt.Choice("author", 5) {
+	case 3: // a post without an id cannot vouch for an author that has one
+		postID = ""
+		author = `"attributedTo":"` + c09A + `/other",`
+		authorOK = false
+	case 4: // neither has an id: nothing contradicts
+		postID = ""
+		author = `"attributedTo":{"type":"Person","name":"anonymous"},`
 	case 1:
 		author = `"attributedTo":"` + c09A + `/other",`
 	case 2:
 		author = `"attributedTo":"` + c09B + `/actor2",`
 		authorOK = false
 	}
-	postDoc := `{"type":"Note","id":"` + c09A + `/post?n=1",` + author + `"content":"the post","replies":{"type":"Collection","items":[` + strings.Join(parts, ",") + `]}}`
+	postDoc := `{"type":"Note",` + postID + author + `"content":"the post","replies":{"type":"Collection","items":[` + strings.Join(parts, ",") + `]}}`
 	w.Routes[jtp.VHostA+"/post?n=1"] = c09Doc(postDoc)
 	w.Routes[jtp.VHostA+"/reply"] = c09Doc(`{"type":"Note","content":"r","inReplyTo":"` + c09A + `/post?n=1","id":"` + c09A + `/reply","name":"x","attributedTo":"` + c09B + `/actor2"}`)
 	jtp.VerifUseWorld(w, 16)
@@ -181,6 +189,9 @@ func VerifC09Replies() {
 	items, _, _ := children.Harvest(uint(n+1), 0)
 	verifrt.Assert(len(items) == n, "every-entry-appears-in-its-position")
 	for i := 0; i < len(items) && i < n; i++ {
+		if postID == "" {
+			want[i] = false // a post without an id has no replies that can reference it
+		}
 		_, genuine := items[i].(*Post)
 		_, failure := items[i].(*Failure)
 		verifrt.Assert(genuine || failure, "entry-is-a-post-or-an-error-item")
